@@ -218,7 +218,7 @@ class FnUninit:
         if op == "load":
             root, off = self.addr(i.ops[0])
             if root is not None and off is not None:
-                # `c ? 0 : local` is compiled to an unconditional load feeding a select: the value only counts where the select takes it,
+                # a load that only feeds one arm of a select (`c ? 0 : local` after if-conversion): the value only counts where the select takes it,
                 # so the object needs to be initialised under that arm's condition only
                 st_r = st
                 sel = self.sole_select_use(i)
